@@ -97,6 +97,12 @@ func New(id, level string) *Run {
 	r.loadFindings()
 	// an evidence file from a previous run must not survive a crashed run
 	os.Remove(r.evidencePath())
+	// witnesses of earlier runs with the same tier and seed would be confused with this run's
+	if old, _ := filepath.Glob(filepath.Join(r.replayDir(), fmt.Sprintf("%s-seed%d-*.json", r.Tier, r.Seed))); len(old) > 0 {
+		for _, f := range old {
+			os.Remove(f)
+		}
+	}
 	return r
 }
 
@@ -116,6 +122,13 @@ func (r *Run) evidencePath() string {
 		return filepath.Join(d, r.ID+".json")
 	}
 	return filepath.Join(VerifDir, "evidence", r.ID+".json")
+}
+
+func (r *Run) replayDir() string {
+	if d := os.Getenv("VERIF_EVIDENCE_DIR"); d != "" {
+		return filepath.Join(d, "replay", r.ID)
+	}
+	return filepath.Join(VerifDir, "replay", r.ID)
 }
 
 func (r *Run) loadFindings() {
@@ -224,10 +237,7 @@ func (r *Run) Violation(sig Sig, what string, detail any) string {
 		}
 	}
 	r.replaySeq++
-	dir := filepath.Join(VerifDir, "replay", r.ID)
-	if d := os.Getenv("VERIF_EVIDENCE_DIR"); d != "" {
-		dir = filepath.Join(d, "replay", r.ID)
-	}
+	dir := r.replayDir()
 	os.MkdirAll(dir, 0o755)
 	p := filepath.Join(dir, fmt.Sprintf("%s-seed%d-%d.json", r.Tier, r.Seed, r.replaySeq))
 	w := map[string]any{"property": r.ID, "signature": sig.String(), "what": what, "seed": r.Seed, "tier": r.Tier, "detail": detail}
